@@ -275,6 +275,16 @@ def case(ch):
     return out
 
 
+_real_case = case
+
+
+def case(ch):       # noqa: F811 - wrapper that attaches the history as the trace of a violation
+    out = _real_case(ch)
+    if out.violations and out.sample:
+        out.trace = {"history": out.sample.get("history")}
+    return out
+
+
 def _isolation(ref, got, models):
     """Rows of islands other than the faulted one must be identical to the fault-free run."""
     def by_island(rows):
